@@ -570,8 +570,10 @@ func (ka *ecdheKeyAgreement) processServerKeyExchange(config *Config, clientHell
 
 	var sigType uint8
 	var sigHash crypto.Hash
+	var wireHash uint8 // HashAlgorithm byte of the SignatureAndHashAlgorithm on the wire (TLS 1.2), for logging
 	if ka.version >= VersionTLS12 {
 		signatureAlgorithm := SignatureScheme(sig[0])<<8 | SignatureScheme(sig[1])
+		wireHash = uint8(signatureAlgorithm >> 8)
 		sig = sig[2:]
 		if len(sig) < 2 {
 			return errServerKeyExchange
@@ -610,7 +612,9 @@ func (ka *ecdheKeyAgreement) processServerKeyExchange(config *Config, clientHell
 		auth.raw = sig
 		auth.valid = ka.verifyError == nil
 		auth.sh.Signature = sigType
-		auth.sh.Hash = uint8(sigHash)
+		// The log names the TLS HashAlgorithm (RFC 5246, 7.4.1.4.1; 8 = intrinsic for
+		// the RFC 8446 schemes), not the crypto.Hash identifier, which is numbered differently.
+		auth.sh.Hash = wireHash
 	default:
 		break
 	}
